@@ -204,6 +204,10 @@ def outgoing_entities(r):
     for tok in range(len(payloads.KINDS)):
         if payloads.kind_of(tok) != "empty":
             out.append(("message:" + payloads.kind_of(tok), lambda tok=tok: payloads.build(tok + 8 * r.randint(0, 5), MessageMetaAttributes(id=mid, recipient=r.choice([jid, gjid])))))
+            # a group message served again to the one participant that asked for it (what the send layer builds for a retry): to = group, participant = member
+            out.append(("message-to-participant:" + payloads.kind_of(tok),
+                        lambda tok=tok: payloads.build(tok + 8 * r.randint(0, 5), MessageMetaAttributes(id=mid, recipient=gjid, participant=jid)),
+                        {"id": mid, "to": gjid, "participant": jid}))
     out += [
         ("receipt", lambda: OutgoingReceiptProtocolEntity(mid, jid)),
         ("receipt-read-group", lambda: OutgoingReceiptProtocolEntity([mid, mid + "1"], gjid, read=True, participant=jid)),
@@ -352,13 +356,32 @@ def run_outgoing(chk, case):
     import random
     fails = []
     r = random.Random(case["seed"])
-    name, mk = outgoing_entities(r)[case["index"]]
+    entry = outgoing_entities(r)[case["index"]]
+    name, mk = entry[0], entry[1]
+    expect = entry[2] if len(entry) > 2 else {}
     chk.hit("outgoing:" + name.split(":")[0])
     what = "outgoing %s (seed %d)" % (name, case["seed"])
     try:
-        s2 = mk().toProtocolTreeNode()
+        ent = mk()
+        s2 = ent.toProtocolTreeNode()
     except Exception as e:
         fails.append(oracle("C09:outgoing:%s:serialise-raises" % name, "%s: %s: %s" % (what, type(e).__name__, str(e)[:120])))
+        return fails
+    # the stanza carries what the entity was built with ...
+    for k, v in sorted(expect.items()):
+        if s2[k] != v:
+            fails.append(oracle("C09:outgoing:%s:field-not-in-stanza:%s" % (name.split(":")[0], k), "%s: built with %s=%r, the stanza has %s=%r" % (what, k, v, k, s2[k])))
+            return fails
+    # ... and the library's own stanza read back (same class) and serialised again is the same stanza
+    d3 = None
+    if name.startswith("message"):          # message classes serve both directions; request / receipt classes that only ever leave are not read back
+        try:
+            s3 = type(ent).fromProtocolTreeNode(clone(s2)).toProtocolTreeNode()
+            d3 = first_diff(s2, s3)
+        except Exception as e:
+            d3 = ("read-back-raises", "%s: %s" % (type(e).__name__, str(e)[:100]))
+    if d3:
+        fails.append(oracle("C09:outgoing:%s:%s" % (name.split(":")[0], d3[0]), "%s: stanza -> entity -> stanza: %s" % (what, d3[1])))
         return fails
     return fails + codec_check(chk, "outgoing:" + name, what, s2)
 
